@@ -13,13 +13,15 @@
                                   pow domain, length agreement of objective stores);
                     lower bounds  the published front inequality of the property statement.
    PROVED HERE:  ZDT1-4,6 (all four kinds), DTLZ1-4,7 (all four kinds + identities + sampler construction), UF1-4,7 (all four kinds),
-                 UF5, UF6, CF1, CF3 (gen_eq_ref, out_length), WFG4/5/7/8 full lower bound on the translated pipelines, the WFG4-9 shape
+                 UF5, UF6, CF1, CF3 (gen_eq_ref, out_length), WFG4-9 full lower bound on the translated pipelines, the WFG4-9 shape
                  stage (gen_eq_ref, out_length, identity), range lemmas and exception-freedom of the scalar WFG transformations.
-   PARTIAL:      WFG6/WFG9 lower bound, with the missing lemma r_nonsep_full_range as an explicit premise.
-   ORACLE ONLY:  UF8-13, CF2, CF4-10, ZDT5, the WFG1-3 classes, gen_eq_ref of whole WFG pipelines, *_defined of UF5-10/CF/WFG pipelines. *)
+                 Phase 3: r_nonsep(y,|y|) range and hence WFG6/WFG9 full; UF8-10, CF2, CF4-10 gen_eq_ref (objectives AND constraints) + out_length;
+                 UF5, UF6, UF8-10 *_defined; WFG4 and WFG5 as whole problems (gen_eq_ref, out_length).
+   ORACLE ONLY:  UF11-13, ZDT5, the WFG1-3 classes, gen_eq_ref of the whole WFG6-9 pipelines, *_defined of CF and the list-level WFG pipelines,
+                 WFG sampler statements. *)
 From Coq Require Import Reals List ZArith.
 Import ListNotations.
-From PV Require Import Base.RList Gen.Problems Model.ProblemsRef Proofs.ProblemsProofs Proofs.ProblemsDTLZ Proofs.ProblemsUF Proofs.ProblemsWFG Proofs.ProblemsWFGT Proofs.ProblemsWFGP.
+From PV Require Import Base.RList Gen.Problems Model.ProblemsRef Proofs.ProblemsProofs Proofs.ProblemsDTLZ Proofs.ProblemsUF Proofs.ProblemsUF3 Proofs.ProblemsCF Proofs.ProblemsWFG Proofs.ProblemsWFGT Proofs.ProblemsNonsep Proofs.ProblemsWFGP Proofs.ProblemsWFGE.
 Open Scope R_scope.
 
 (* ------------------------------------------------------------------ ZDT1-4, ZDT6: every n >= 2 (the constructors fix n = 30, 30, 30, 10, 10) *)
@@ -243,17 +245,16 @@ Theorem c18_wfg7_lower : forall nobjs nvars z, wfg_box z -> 1 <= wfg_scaled_sums
 Proof. exact wfg7_lower. Qed.
 Theorem c18_wfg8_lower : forall nobjs nvars z, wfg_box z -> 1 <= wfg_scaled_sumsq (WFG8_eval nobjs nvars z).
 Proof. exact wfg8_lower. Qed.
-(* WFG6, WFG9: PARTIAL.  FULL STATEMENT (not proved):  forall M >= 2, M - 1 <= |z|, wfg_box z -> 1 <= wfg_scaled_sumsq (WFGk_eval M nvars z).
-   Missing lemma, taken as the explicit premise r_nonsep_full_range:
-      forall y, in01 y -> 0 <= fn_r_nonsep_eval y (zlen y) <= 1
-   i.e. sum_j y_j + sum_{i<>j} |y_i - y_j| <= ceil(n/2) (1 + 2n - 2 ceil(n/2)) on [0,1]^n (numerically confirmed on all vertices and random points
-   for n <= 10; the oracle checks the WFG6/WFG9 inequality on the real code).  Everything else of the two pipelines is proved. *)
-Theorem c18_wfg6_lower_partial : r_nonsep_full_range -> forall M nvars z, (2 <= M)%Z -> (M - 1 <= zlen z)%Z -> wfg_box z ->
-  1 <= wfg_scaled_sumsq (WFG6_eval M nvars z).
-Proof. exact wfg6_lower_partial. Qed.
-Theorem c18_wfg9_lower_partial : r_nonsep_full_range -> forall M nvars z, (2 <= M)%Z -> (M - 1 <= zlen z)%Z -> wfg_box z ->
-  1 <= wfg_scaled_sumsq (WFG9_eval M nvars z).
-Proof. exact wfg9_lower_partial. Qed.
+(* WFG6, WFG9: FULL for every M >= 2 and M - 1 <= |z| (the hypotheses make the last group y[k:] well-formed so that A = l = |y[k:]|; in Platypus
+   k = M - 1 so the other groups use r_nonsep with A = 1).  r_nonsep(y, |y|) in [0,1] is the inequality
+   sum_j y_j + sum_{i<>j} |y_i - y_j| <= ceil(n/2) (1 + 2n - 2 ceil(n/2)) on [0,1]^n, proved in Proofs/ProblemsNonsep.v
+   (cyclic reindexing, |a-b| <= a+b-2ab, fractional-part bound sum y(1-y) >= frac(S)(1-frac(S)), integer maximisation). *)
+Theorem c18_r_nonsep_full_range : forall y, in01 y -> 0 <= fn_r_nonsep_eval y (zlen y) <= 1.
+Proof. exact r_nonsep_full_range_proved. Qed.
+Theorem c18_wfg6_lower : forall M nvars z, (2 <= M)%Z -> (M - 1 <= zlen z)%Z -> wfg_box z -> 1 <= wfg_scaled_sumsq (WFG6_eval M nvars z).
+Proof. exact wfg6_lower. Qed.
+Theorem c18_wfg9_lower : forall M nvars z, (2 <= M)%Z -> (M - 1 <= zlen z)%Z -> wfg_box z -> 1 <= wfg_scaled_sumsq (WFG9_eval M nvars z).
+Proof. exact wfg9_lower. Qed.
 (* the range lemmas themselves *)
 Theorem c18_s_linear_range : forall y, 0 <= y <= 1 -> 0 <= fn_s_linear_eval y (7 / 20) <= 1.
 Proof. exact s_linear_range. Qed.
@@ -312,3 +313,111 @@ Theorem c18_wfg_scalar_defined : forall y u, 0 <= y <= 1 -> 0 <= u <= 1 ->
   fn_s_linear_defined y (7 / 20) /\ (forall A B, 0 <= B -> fn_s_multi_defined y A B (7 / 20)) /\
   fn_s_decept_defined y (7 / 20) (1 / 1000) (1 / 20) /\ fn_b_param_defined y u (49 / 50 / (2499 / 50)) (1 / 50) 50.
 Proof. exact wfg_scalar_defined. Qed.
+
+(* ------------------------------------------------------------------ UF8-10 and CF8-10 (three objectives; loop over j = 3..n split on j mod 3), every n >= 5:
+   ALL THREE generated objectives = published formulas (the repaired defect e2b490f dropped f3 in CF8-10), the generated constraint
+   value = published expression, exactly 3 objectives / 1 constraint *)
+Theorem c18_uf8_gen_eq_ref : forall (n : nat) x, (5 <= n)%nat -> length x = n -> UF8_eval 3 (Z.of_nat n) x = uf8_ref x.
+Proof. exact uf8_gen_eq_ref. Qed.
+Theorem c18_uf9_gen_eq_ref : forall (n : nat) x, (5 <= n)%nat -> length x = n -> UF9_eval 3 (Z.of_nat n) x = uf9_ref x.
+Proof. exact uf9_gen_eq_ref. Qed.
+Theorem c18_uf10_gen_eq_ref : forall (n : nat) x, (5 <= n)%nat -> length x = n -> UF10_eval 3 (Z.of_nat n) x = uf10_ref x.
+Proof. exact uf10_gen_eq_ref. Qed.
+Theorem c18_cf8_gen_eq_ref : forall (n : nat) x, (5 <= n)%nat -> length x = n -> CF8_eval 3 (Z.of_nat n) x = uf8_ref x.
+Proof. exact cf8_gen_eq_ref. Qed.
+Theorem c18_cf9_gen_eq_ref : forall (n : nat) x, (5 <= n)%nat -> length x = n -> CF9_eval 3 (Z.of_nat n) x = uf8_ref x.
+Proof. exact cf9_gen_eq_ref. Qed.
+Theorem c18_cf10_gen_eq_ref : forall (n : nat) x, (5 <= n)%nat -> length x = n -> CF10_eval 3 (Z.of_nat n) x = uf10_ref x.
+Proof. exact cf10_gen_eq_ref. Qed.
+Theorem c18_cf8_constr_gen_eq_ref : forall (n : nat) x, (5 <= n)%nat -> length x = n -> CF8_constr_eval 3 (Z.of_nat n) x = cf8_constr x.
+Proof. exact cf8_constr_gen_eq_ref. Qed.
+Theorem c18_cf9_constr_gen_eq_ref : forall (n : nat) x, (5 <= n)%nat -> length x = n -> CF9_constr_eval 3 (Z.of_nat n) x = cf9_constr x.
+Proof. exact cf9_constr_gen_eq_ref. Qed.
+Theorem c18_cf10_constr_gen_eq_ref : forall (n : nat) x, (5 <= n)%nat -> length x = n -> CF10_constr_eval 3 (Z.of_nat n) x = cf10_constr x.
+Proof. exact cf10_constr_gen_eq_ref. Qed.
+Theorem c18_uf8_out_length : forall (n : nat) x, (5 <= n)%nat -> length x = n -> length (UF8_eval 3 (Z.of_nat n) x) = 3%nat.
+Proof. exact uf8_out_length. Qed.
+Theorem c18_uf9_out_length : forall (n : nat) x, (5 <= n)%nat -> length x = n -> length (UF9_eval 3 (Z.of_nat n) x) = 3%nat.
+Proof. exact uf9_out_length. Qed.
+Theorem c18_uf10_out_length : forall (n : nat) x, (5 <= n)%nat -> length x = n -> length (UF10_eval 3 (Z.of_nat n) x) = 3%nat.
+Proof. exact uf10_out_length. Qed.
+Theorem c18_cf8_out_length : forall (n : nat) x, (5 <= n)%nat -> length x = n ->
+  length (CF8_eval 3 (Z.of_nat n) x) = 3%nat /\ length (CF8_constr_eval 3 (Z.of_nat n) x) = 1%nat.
+Proof. exact cf8_out_length. Qed.
+Theorem c18_cf9_out_length : forall (n : nat) x, (5 <= n)%nat -> length x = n ->
+  length (CF9_eval 3 (Z.of_nat n) x) = 3%nat /\ length (CF9_constr_eval 3 (Z.of_nat n) x) = 1%nat.
+Proof. exact cf9_out_length. Qed.
+Theorem c18_cf10_out_length : forall (n : nat) x, (5 <= n)%nat -> length x = n ->
+  length (CF10_eval 3 (Z.of_nat n) x) = 3%nat /\ length (CF10_constr_eval 3 (Z.of_nat n) x) = 1%nat.
+Proof. exact cf10_out_length. Qed.
+
+(* ------------------------------------------------------------------ CF2, CF4-CF7 (two objectives; CF6, CF7 two constraints), every n >= 4:
+   generated objectives and constraint values = published formulas (incl. the piecewise h_2 and the sign(u) sqrt|u| terms), declared counts *)
+Theorem c18_cf2_gen_eq_ref : forall (n : nat) x, (4 <= n)%nat -> length x = n -> CF2_eval 2 (Z.of_nat n) x = cf2_objs x.
+Proof. exact cf2_gen_eq_ref. Qed.
+Theorem c18_cf2_constr_gen_eq_ref : forall (n : nat) x, (4 <= n)%nat -> length x = n -> CF2_constr_eval 2 (Z.of_nat n) x = cf2_constr x.
+Proof. exact cf2_constr_gen_eq_ref. Qed.
+Theorem c18_cf2_out_length : forall (n : nat) x, (4 <= n)%nat -> length x = n ->
+  length (CF2_eval 2 (Z.of_nat n) x) = 2%nat /\ length (CF2_constr_eval 2 (Z.of_nat n) x) = 1%nat.
+Proof. exact cf2_out_length. Qed.
+Theorem c18_cf4_gen_eq_ref : forall (n : nat) x, (4 <= n)%nat -> length x = n -> CF4_eval 2 (Z.of_nat n) x = cf4_objs x.
+Proof. exact cf4_gen_eq_ref. Qed.
+Theorem c18_cf4_constr_gen_eq_ref : forall (n : nat) x, (4 <= n)%nat -> length x = n -> CF4_constr_eval 2 (Z.of_nat n) x = cf4_constr x.
+Proof. exact (fun n x _ => cf4_constr_gen_eq_ref n x). Qed.
+Theorem c18_cf4_out_length : forall (n : nat) x, (4 <= n)%nat -> length x = n ->
+  length (CF4_eval 2 (Z.of_nat n) x) = 2%nat /\ length (CF4_constr_eval 2 (Z.of_nat n) x) = 1%nat.
+Proof. exact cf4_out_length. Qed.
+Theorem c18_cf5_gen_eq_ref : forall (n : nat) x, (4 <= n)%nat -> length x = n -> CF5_eval 2 (Z.of_nat n) x = cf5_objs x.
+Proof. exact cf5_gen_eq_ref. Qed.
+Theorem c18_cf5_constr_gen_eq_ref : forall (n : nat) x, (4 <= n)%nat -> length x = n -> CF5_constr_eval 2 (Z.of_nat n) x = cf5_constr x.
+Proof. exact (fun n x _ => cf5_constr_gen_eq_ref n x). Qed.
+Theorem c18_cf5_out_length : forall (n : nat) x, (4 <= n)%nat -> length x = n ->
+  length (CF5_eval 2 (Z.of_nat n) x) = 2%nat /\ length (CF5_constr_eval 2 (Z.of_nat n) x) = 1%nat.
+Proof. exact cf5_out_length. Qed.
+Theorem c18_cf6_gen_eq_ref : forall (n : nat) x, (4 <= n)%nat -> length x = n -> CF6_eval 2 (Z.of_nat n) x = cf6_objs x.
+Proof. exact cf6_gen_eq_ref. Qed.
+Theorem c18_cf6_constr_gen_eq_ref : forall (n : nat) x, (4 <= n)%nat -> length x = n -> CF6_constr_eval 2 (Z.of_nat n) x = cf67_constr (4 / 5 * X x 0) x.
+Proof. exact (fun n x _ => cf6_constr_gen_eq_ref n x). Qed.
+Theorem c18_cf6_out_length : forall (n : nat) x, (4 <= n)%nat -> length x = n ->
+  length (CF6_eval 2 (Z.of_nat n) x) = 2%nat /\ length (CF6_constr_eval 2 (Z.of_nat n) x) = 2%nat.
+Proof. exact cf6_out_length. Qed.
+Theorem c18_cf7_gen_eq_ref : forall (n : nat) x, (4 <= n)%nat -> length x = n -> CF7_eval 2 (Z.of_nat n) x = cf7_objs x.
+Proof. exact cf7_gen_eq_ref. Qed.
+Theorem c18_cf7_constr_gen_eq_ref : forall (n : nat) x, (4 <= n)%nat -> length x = n -> CF7_constr_eval 2 (Z.of_nat n) x = cf67_constr 1 x.
+Proof. exact (fun n x _ => cf7_constr_gen_eq_ref n x). Qed.
+Theorem c18_cf7_out_length : forall (n : nat) x, (4 <= n)%nat -> length x = n ->
+  length (CF7_eval 2 (Z.of_nat n) x) = 2%nat /\ length (CF7_constr_eval 2 (Z.of_nat n) x) = 2%nat.
+Proof. exact cf7_out_length. Qed.
+
+(* UF5, UF6, UF8-10 raise no Python exception on inputs of the right length (UF5/UF8-10: no sqrt or pow at all; n >= 3 resp. 5 keeps the index sets non-empty) *)
+Theorem c18_uf5_defined : forall (n : nat) x, (3 <= n)%nat -> length x = n -> UF5_defined 2 (Z.of_nat n) x.
+Proof. exact uf5_defined. Qed.
+Theorem c18_uf6_defined : forall (n : nat) x, (3 <= n)%nat -> length x = n -> UF6_defined 2 (Z.of_nat n) x.
+Proof. exact uf6_defined. Qed.
+Theorem c18_uf8_defined : forall (n : nat) x, (5 <= n)%nat -> length x = n -> UF8_defined 3 (Z.of_nat n) x.
+Proof. exact uf8_defined. Qed.
+Theorem c18_uf9_defined : forall (n : nat) x, (5 <= n)%nat -> length x = n -> UF9_defined 3 (Z.of_nat n) x.
+Proof. exact uf9_defined. Qed.
+Theorem c18_uf10_defined : forall (n : nat) x, (5 <= n)%nat -> length x = n -> UF10_defined 3 (Z.of_nat n) x.
+Proof. exact uf10_defined. Qed.
+
+(* ------------------------------------------------------------------ WFG4 and WFG5 as WHOLE problems: the translated evaluate pipeline = the published
+   composition (z_i/2i, s_multi resp. s_decept, reduction with one position parameter per group and the mean of the distance
+   parameters, concave shape with f_m = x_M + 2m h_m), exactly M objectives; every M >= 2, every n >= M - 1, every in-bounds z.
+   (_correct_to_01 is shown to be the identity on every value that occurs.)  WFG6-9 whole-pipeline equalities: not done. *)
+Theorem c18_wfg4_gen_eq_ref : forall (M n : nat) z, (2 <= M)%nat -> (M - 1 <= n)%nat -> length z = n -> wfg_box z -> forall nvars,
+  WFG4_eval (Z.of_nat M) nvars z = wfg4_ref M z.
+Proof. exact wfg4_gen_eq_ref. Qed.
+Theorem c18_wfg5_gen_eq_ref : forall (M n : nat) z, (2 <= M)%nat -> (M - 1 <= n)%nat -> length z = n -> wfg_box z -> forall nvars,
+  WFG5_eval (Z.of_nat M) nvars z = wfg5_ref M z.
+Proof. exact wfg5_gen_eq_ref. Qed.
+Theorem c18_wfg4_out_length : forall (M n : nat) z, (2 <= M)%nat -> (M - 1 <= n)%nat -> length z = n -> wfg_box z -> forall nvars,
+  length (WFG4_eval (Z.of_nat M) nvars z) = M.
+Proof. exact wfg4_out_length. Qed.
+Theorem c18_wfg5_out_length : forall (M n : nat) z, (2 <= M)%nat -> (M - 1 <= n)%nat -> length z = n -> wfg_box z -> forall nvars,
+  length (WFG5_eval (Z.of_nat M) nvars z) = M.
+Proof. exact wfg5_out_length. Qed.
+Theorem c18_s_multi_gen_eq_ref : forall y A B, 0 <= y <= 1 -> 0 <= B -> fn_s_multi_eval y A B (7 / 20) = wfg_s_multi y A B (7 / 20).
+Proof. exact s_multi_gen_eq_ref. Qed.
+Theorem c18_s_decept_gen_eq_ref : forall y, 0 <= y <= 1 -> fn_s_decept_eval y (7 / 20) (1 / 1000) (1 / 20) = wfg_s_decept y (7 / 20) (1 / 1000) (1 / 20).
+Proof. exact s_decept_gen_eq_ref. Qed.
